@@ -423,6 +423,10 @@ func c22Post(p *fw.Parent) {
 				l = l[20:]
 			}
 			names := nameSet(v.Files["grammar.tm"])
+			// words of the fixed log.Fatal texts stay even when the grammar has symbols of that name
+			for _, w := range strings.Fields("error internal invariant failure grammar inconsistency state broken found inside rule cannot is not properly instantiated invalid token set unknown regexp operation input on a no for of kind") {
+				delete(names, w)
+			}
 			if i := strings.Index(l, "internal failure: "); i >= 0 {
 				// syntax.checkOrDie: "<stage>, internal failure: file:line:col: message"
 				inner := l[i+len("internal failure: "):]
